@@ -641,6 +641,12 @@ func (b *teletextPageBuffer) parsePacketHeader(i []byte, magazineNumber uint8, t
 	}
 	pageNumber := int(pageNumberTens)*10 + int(pageNumberUnits)
 
+	// A page number with a hexadecimal digit designates a page of its own: it is never the decimal page with
+	// the same weighted sum (page 2B is not page 31)
+	if pageNumberTens > 9 || pageNumberUnits > 9 {
+		pageNumber = 0x100 | int(pageNumberTens)<<4 | int(pageNumberUnits)
+	}
+
 	// 0xff is a reserved page number value
 	if pageNumberTens == 0xf && pageNumberUnits == 0xf {
 		return
